@@ -17,8 +17,9 @@ ASSUMPTIONS = ["pack names are short ASCII strings and index sizes small non-neg
                "three collections are decided by the solver",
                "within one collection a pack name occurs once, and a pack name identifies its content: the same name "
                "never carries different index sizes in two collections"]
-OUTSIDE = ["interleavings of pack-names reads/writes, renames and obsolete-pack cleanup between processes (concurrency "
-           "over real I/O)", "collections larger than the bound"]
+OUTSIDE = ["interleavings finer than 'another writer completes a whole update just before we take the names lock' (what the "
+           "lock permits), readers racing with the renames to obsolete_packs (concurrency over real I/O)",
+           "collections larger than the bound"]
 
 
 def _nodes(cx, prefix, n):
@@ -124,7 +125,33 @@ def ob_save(cx):
     P, c, at_load, mine, disk = _mk(cx)
     log = []
     _wire(cx, c, mine, log)
+    # another writer may complete a whole update of the list just before we get the names lock: the list that counts is
+    # the one on disk while we hold the lock
+    disk_now = [disk]
+    if cx.choose("other_writer_before_lock", 0, 1):
+        disk2 = _nodes(cx, "disk2", cx.choose("n_disk2", 0, cx.p("n")))
+        _same_content(cx, [at_load, mine, disk, disk2])
+    else:
+        disk2 = None
+
+    def read_disk():
+        log.append(("read_disk",))
+        return [(None, (nm.encode("ascii"),), _value(sz)) for nm, sz in disk_now[0]]
+    c._iter_disk_pack_index = read_disk
+
+    def lock_names():
+        log.append(("lock",))
+        if disk2 is not None:
+            disk_now[0] = disk2
+    c.lock_names = lock_names
     newly = c._save_pack_names()
+    disk = disk_now[0]
+    if disk2 is not None:
+        cx.cover("other_writer")
+    reads = [i for i, e in enumerate(log) if e[0] == "read_disk"]
+    put = [i for i, e in enumerate(log) if e[0] == "put_file"]
+    cx.require(reads and put and log.index(("lock",)) < reads[0] and any(r < put[0] for r in reads),
+               "the on-disk pack list that is merged was read before the names lock was taken")
     fin = [e for e in log if e[0] == "finish"]
     cx.require(len(fin) == 1, "index not built exactly once")
     written = [(k[0].decode("ascii"), v) for k, v in fin[0][1]]
@@ -340,7 +367,7 @@ def obligations(tier):
         Ob("diff_pack_names", ob_diff, lift, p, to, 4 if q else 10, ["all_nonempty"],
            bounds="<= %(n)d nodes in each of at-load / in-memory / on-disk; names 1 char over %(alpha)r; two index sizes "
                   "0..%(maxsize)d each" % p),
-        Ob("save_pack_names", ob_save, lift, p2, to, 4 if q else 10, ["saved"],
+        Ob("save_pack_names", ob_save, lift, p2, to, 4 if q else 10, ["saved", "other_writer"],
            bounds="<= %(n)d nodes per collection; names over %(alpha)r; sizes 0..%(maxsize)d" % p2),
         Ob("reload_then_save", ob_reload_then_save, lift, dict(n=2, alpha="ab" if q else "abc", maxsize=9), to, 4 if q else 10,
            ["reloaded_and_saved"],
